@@ -497,6 +497,43 @@ func (ex *Exec) strLenFacts(s *Term) *Term {
 	return And(ex.sle(ex.intConst(0), l), ex.sle(l, ex.intConst(maxSliceLen)))
 }
 
+// strCat: concatenation of strings, an uninterpreted function with its length and character axioms, and the
+// axioms that relate it to substr (s[lo:hi]): the second operand is the tail, a slice of a slice is a slice,
+// the full slice is the string.
+func (ex *Exec) strCat(a, b *Term) *Term {
+	ss, is := ex.strSort(), ex.env.IntS()
+	if _, ok := ex.env.d.Funcs["strcat"]; !ok {
+		ex.env.d.Func("strcat", ss, ss, ss)
+		sub := ex.env.d.Func("substr", ss, ss, is, is)
+		at := ex.env.d.Func("str_at", SBV8, ss, is)
+		x, y := Sym("a!sc", ss), Sym("b!sc", ss)
+		i, lo, hi, c, d := Sym("i!sc", is), Sym("lo!sc", is), Sym("hi!sc", is), Sym("c!sc", is), Sym("d!sc", is)
+		cat := App("strcat", ss, x, y)
+		lx, ly := ex.strLen(x), ex.strLen(y)
+		z := ex.intConst(0)
+		ex.addAxiom(Forall([]*Term{x, y}, Eq(ex.strLen(cat), ex.iadd(lx, ly)), []*Term{cat}))
+		cati := ex.env.d.Apply(at.Name, cat, i)
+		ex.addAxiom(Forall([]*Term{x, y, i}, And(
+			Implies(And(ex.sle(z, i), ex.slt(i, lx)), Eq(cati, ex.env.d.Apply(at.Name, x, i))),
+			Implies(And(ex.sle(lx, i), ex.slt(i, ex.iadd(lx, ly))), Eq(cati, ex.env.d.Apply(at.Name, y, ex.isub(i, lx))))), []*Term{cati}))
+		tail := ex.env.d.Apply(sub.Name, cat, lo, hi)
+		ex.addAxiom(Forall([]*Term{x, y, lo, hi}, Implies(And(Eq(lo, lx), Eq(hi, ex.iadd(lx, ly))), Eq(tail, y)), []*Term{tail}))
+		full := ex.env.d.Apply(sub.Name, x, z, hi)
+		ex.addAxiom(Forall([]*Term{x, hi}, Implies(Eq(hi, lx), Eq(full, x)), []*Term{full}))
+		inner := ex.env.d.Apply(sub.Name, x, lo, hi)
+		// length and characters of a slice
+		inRange := And(ex.sle(z, lo), ex.sle(lo, hi), ex.sle(hi, lx))
+		ex.addAxiom(Forall([]*Term{x, lo, hi}, Implies(inRange, Eq(ex.strLen(inner), ex.isub(hi, lo))), []*Term{inner}))
+		inneri := ex.env.d.Apply(at.Name, inner, i)
+		ex.addAxiom(Forall([]*Term{x, lo, hi, i}, Implies(And(inRange, ex.sle(z, i), ex.slt(i, ex.isub(hi, lo))), Eq(inneri, ex.env.d.Apply(at.Name, x, ex.iadd(lo, i)))), []*Term{inneri}))
+		outer := ex.env.d.Apply(sub.Name, inner, c, d)
+		ex.addAxiom(Forall([]*Term{x, lo, hi, c, d}, Implies(And(ex.sle(z, lo), ex.sle(lo, hi), ex.sle(hi, lx), ex.sle(z, c), ex.sle(c, d), ex.sle(d, ex.isub(hi, lo))),
+			Eq(outer, ex.env.d.Apply(sub.Name, x, ex.iadd(lo, c), ex.iadd(lo, d)))), []*Term{outer}))
+		ex.trusted["string concatenation and slicing: strcat/substr are uninterpreted functions with length, character, tail, full-slice and slice-of-slice axioms"] = true
+	}
+	return App("strcat", ss, a, b)
+}
+
 func (ex *Exec) strConst(s string) *Term {
 	if t, ok := ex.strs[s]; ok {
 		return t
@@ -515,6 +552,8 @@ func (ex *Exec) strConst(s string) *Term {
 		// the empty string is the only string of length 0
 		x := Sym("sx!e", ex.strSort())
 		ex.addAxiom(Forall([]*Term{x}, Implies(Eq(ex.strLen(x), ex.intConst(0)), Eq(x, t))))
+		// ... and it is the zero value of the string type
+		ex.addAxiom(Eq(t, ex.env.zeroLeaf(Leaf{Sort: ex.strSort()})))
 	}
 	return t
 }
